@@ -103,18 +103,19 @@ Print Assumptions C10_wf_file_meaning.
 
 (* ---- writer_wf: after every operation of every sequence of newCounter /
    Add / extend / close-and-reopen by one writer on a file it created, the file
-   follows the layout.  Names: at least one byte (longer than 4096 are refused
-   by the code and leave the file unchanged); every operation is applied to a
-   file at least 64 KiB below the 4 GiB cap of the format (all_small). *)
+   follows the layout.  Names of any content: those of 1..4096 bytes get a
+   record, the empty name and longer ones are refused by the code and leave the
+   file unchanged; every operation is applied to a file at least 64 KiB below
+   the 4 GiB cap of the format (all_small). *)
 Theorem C10_writer_wf : forall meta s0 ops, meta_ok meta -> create [] meta = Some s0 ->
-  Forall op_valid ops -> all_small s0 ops ->
+  all_small s0 ops ->
   forall n, wf_file (w_bs (snd (run_ops s0 (firstn n ops)))) = true.
 Proof. exact writer_wf. Qed.
 Print Assumptions C10_writer_wf.
 
 (* the invariant behind it, preserved by every single operation, together with:
    the allocation limit only grows, the file only grows *)
-Theorem C10_limit_monotone : forall s o, Inv s -> small s -> op_valid o ->
+Theorem C10_limit_monotone : forall s o, Inv s -> small s ->
   limit_of (w_bs s) <= limit_of (w_bs (snd (step s o))) /\ len (w_bs s) <= len (w_bs (snd (step s o))).
 Proof. exact limit_monotone. Qed.
 Print Assumptions C10_limit_monotone.
@@ -123,14 +124,14 @@ Theorem C10_limit_le_size : forall s, Inv s -> limit_of (w_bs s) <= len (w_bs s)
 Proof. exact limit_le_size. Qed.
 Print Assumptions C10_limit_le_size.
 
-Theorem C10_invariant_reachable : forall ops s, Inv s -> Forall op_valid ops -> all_small s ops ->
+Theorem C10_invariant_reachable : forall ops s, Inv s -> all_small s ops ->
   Inv (snd (run_ops s ops)).
 Proof. exact run_ops_inv. Qed.
 Print Assumptions C10_invariant_reachable.
 
 (* a well-formed file never makes a valid operation fail (no "corrupt", no
    endless extension): names of 1..4096 bytes get their record *)
-Theorem C10_ops_succeed : forall s o, Inv s -> small s -> op_valid o -> ok_result o (fst (step s o)).
+Theorem C10_ops_succeed : forall s o, Inv s -> small s -> ok_result o (fst (step s o)).
 Proof. exact ops_succeed. Qed.
 Print Assumptions C10_ops_succeed.
 
@@ -138,7 +139,7 @@ Print Assumptions C10_ops_succeed.
    exactly what the operations wrote (names distinct; value = sum of the deltas
    mod 2^64, 0 for a counter only created) *)
 Theorem C10_roundtrip_written : forall meta s0 ops, meta_ok meta -> create [] meta = Some s0 ->
-  Forall op_valid ops -> all_small s0 ops ->
+  all_small s0 ops ->
   let '(s, m) := run_abs s0 (fun _ => None) ops in
   exists rs, spec_records (w_bs s) = Some rs /\ NoDup (map r_name rs) /\
              forall k v, In (k, v) (pairs rs) <-> m k = Some v.
@@ -177,10 +178,11 @@ Example C10_fnv_vectors :
   fnv1a [] = 2166136261 /\ fnv1a (s2b "a") = 3826002220 /\ fnv1a (s2b "foobar") = 3214735720.
 Proof. exact fnv_vectors. Qed.
 
-(* outside the quantifier (names of 1..4096 bytes): the empty name *)
-Example C10_empty_name_boundary :
-  let f := file_after [OpNew []] in wf_file f = false /\ parse f = PErrCorrupt.
-Proof. exact empty_name_boundary. Qed.
+(* names outside 1..4096 bytes are refused and change nothing *)
+Example C10_refused_names :
+  fst (run_ops fresh_state [OpNew []; OpAdd (repeat 120 4097) 1]) = [REmpty; RLong] /\
+  file_after [OpNew []; OpAdd (repeat 120 4097) 1] = file_after [].
+Proof. exact refused_names. Qed.
 
 (* outside the no-wrap hypothesis of C10_place_ok *)
 Example C10_place_wraps_near_4GiB : place 32 (4294967296 - 10) 1 = (0, 32).
